@@ -22,16 +22,16 @@ PROPERTY = "C01"
 try:  # frames (Model/Frames.lean `Variant`): bitmask 1 zeroWidthChild, 2 ruleRightRepeat, 4 rstripCountsChars, 8 columnsZeroCount
     from props.c08 import VARIANT as FRAMES_VARIANT
 except Exception:  # pragma: no cover
-    FRAMES_VARIANT = 12
+    FRAMES_VARIANT = 0  # every frames defect is repaired in /repo
 try:  # text / wrap (Model/Text.lean `Variant` x6, Model/Wrap.lean `justifyNeg`, `rstripChars`)
     from props.c02 import FLAGS as TEXT_FLAGS
 except Exception:  # pragma: no cover
-    TEXT_FLAGS = "00000001"
+    TEXT_FLAGS = "00000000"  # every text / wrap defect is repaired in /repo
 try:  # table (Model/Table.lean `Flags`: leadingRepeat, minWidthCapsExpand, fixedRawMaximum, noColumnsAsserts, flexNegative, staleTableWidth)
     from props.c07 import FLAGS as _TF
     TABLE_FLAGS = "".join(str(int(x)) for x in _TF)
 except Exception:  # pragma: no cover
-    TABLE_FLAGS = "000"
+    TABLE_FLAGS = "000000"  # every table defect is repaired in /repo (Flags.allRepaired)
 FRAMES_VARIANT = int(os.environ.get("VERIF_C01_FRAMES_VARIANT", FRAMES_VARIANT))
 TEXT_FLAGS = os.environ.get("VERIF_C01_TEXT_FLAGS", TEXT_FLAGS)
 TABLE_FLAGS = os.environ.get("VERIF_C01_TABLE_FLAGS", TABLE_FLAGS)
@@ -87,7 +87,7 @@ def _job(args):
         else:
             impl = "ok:" + enc_str(out)
         cases.append(("layout_render", [FLAGS, L.env_enc(cwidth), L.enc_opts(opts), w, tree], impl, "w-smin=%d" % min(w - sm, 13) if w >= sm else "below",
-                      f"Console(width={cwidth}).render({spec!r}, width={w}, {opts})"))
+                      f"Console({cwidth}).render({spec!r}, width={w}, {opts})"))
         if w >= sm and dom != "out":
             if out.startswith("err:"):
                 checks.append((False, "Console.render", (spec, cwidth, opts, w), f"rendering raised {out[4:]}", None))
@@ -150,6 +150,13 @@ def corner_specs():
         ("TREE", (T("root"), "tree.line", False, [(T("hidden"), "tree.line", True, [])])),
         ("PANEL", {"title": "p"}, ("TABLE", {}, [({}, T("a"), T(""), [("PANEL", {}, T("deep あ"))])])),
         ("PAD", (0, 1, 0, 1), False, ("COLS", {}, [("PANEL", {"expand": False}, T("x")), T("y z")])),
+        ("S", "a plain str"), ("S", "[bold]marked[/bold] :smiley: 42"), ("PANEL", {"title": "styled", "title_styled": True}, ("S", "in a panel")),
+        ("TABLE", {}, []), ("TABLE", {"expand": True, "title": {"plain": "ttl"}}, []), ("TABLE", {"box": None, "min_width": 9}, []),
+        ("COLS", {"width": 6}, [T("one"), T("two two"), T("three 3 3"), T("あい")]), ("COLS", {"width": 0, "padding": (0,)}, [T("a"), T("b")]),
+        ("COLS", {"width": 30, "expand": True}, [T("one"), T("two")]),
+        ("TABLE", {"expand": True}, [({"ratio": 1}, T("r"), T(""), [T("x")]), ({}, T("wide"), T(""), [T("a considerably wider ordinary column here")])]),
+        ("TABLE", {"expand": True, "box": None, "padding": (0, 0, 0, 0)}, [({"ratio": 2}, T("r"), T(""), [T("x")]), ({"ratio": 1}, T("q"), T(""), [T("yy")]), ({}, T("wide"), T(""), [T("wide wide wide wide")])]),
+        ("RULE", {"title": "styled title", "title_styled": True}),
     ]
     return out
 
@@ -162,7 +169,7 @@ def run(ctx):
     for spec in corner_specs():
         sm = L.smin(spec)
         ws = sorted(set(list(range(1, sm + 14)) + [30, 80]))
-        for cwidth in (80, 20):
+        for cwidth in (80, 20, (60, True, False, None), (60, False, True, "truecolor")):
             jobs.append((spec, cwidth, {}, ws if cwidth == 80 else ws[: sm + 6]))
     # ---- B: seeded random trees, depth <= 4, all options; console width != render width in a third of the cases
     n = 3000 if quick else 30000
@@ -180,6 +187,8 @@ def run(ctx):
         if rng.random() < 0.06:
             opts["no_wrap"] = True
         cwidth = rng.choice([80, 80, 40, 12, 200])
+        if rng.random() < 0.25:  # ASCII-only / legacy-Windows consoles (box substitution, guides, rule characters), colour systems (progress bar)
+            cwidth = (cwidth, rng.random() < 0.5, rng.random() < 0.5, rng.choice([None, "standard", "truecolor"]))
         ws = widths_for(rng, sm, quick, dense=12 if d <= 2 or not quick else 6)
         if quick:
             ws = ws if d <= 2 else rng.sample(ws, min(len(ws), 7))
